@@ -1,6 +1,7 @@
 """
 C12  Idle HTTP connections time out after the configured tymeout.
 """
+from ..core import CaseTimeout as _CaseTimeout
 import errno
 import ssl
 from .. import netlab, net as netmod, tls as tlsmod
@@ -196,6 +197,8 @@ def run_case(tape, tier):
                 net.current_owner = "server"
                 try:
                     server.service()
+                except _CaseTimeout:
+                    raise
                 except BaseException as ex:
                     raised.append((tyme, type(ex).__name__, str(ex)[:150]))
                     raise
@@ -222,6 +225,8 @@ def run_case(tape, tier):
         try:
             doist.do(doers=[Driver(tock=0.0), Srv(tock=0.0)])
         except HarnessError:
+            raise
+        except _CaseTimeout:
             raise
         except BaseException as ex:
             if not raised:
